@@ -305,6 +305,8 @@ class Exec(Engine):
                 return [(st, VFn(('repo', '%s:%s.%s' % (v.module, v.name, name))))]
             raise Unsupported('class attribute %s.%s' % (v.name, name), node)
         if isinstance(v, VModule):
+            if v.name in ('re', 'math', 'random', 'collections'):
+                return [(st, VFn(('external', '%s.%s' % (v.name, name))))]
             r = loader.resolve(loader.load(v.name), name)
             if r is None:
                 raise Unsupported('module attribute %s.%s' % (v.name, name), node)
@@ -720,6 +722,11 @@ class Exec(Engine):
             raise Unsupported('`in` on a record with non-literal key', node)
         if isinstance(cont, VAny):
             return self.any_contains(cont, x)
+        if isinstance(cont, VNone):
+            if st.spec:
+                return FALSE
+            self.prove(st, FALSE, 'aorte', node, "TypeError: argument of type 'NoneType' is not iterable")
+            raise PathDead()
         raise Unsupported('`in` on %s' % cont.kind, node)
 
     def str_in_list(self, st, l, s):
